@@ -10,8 +10,9 @@ import time
 sys.path.insert(0, os.path.join(os.path.dirname(os.path.dirname(os.path.abspath(__file__))), "lib"))
 import vcheck  # noqa: E402
 
-# open findings that the transcription I reproduces: variant of Run.v in which that one is repaired as well
-VARIANT_FINDING = {3: "C04-N1", 5: "C04-N3"}
+# open findings that the transcription I reproduces (variant of Run.v in which that one is repaired as well): none —
+# all six C04 findings are repaired in /repo (known/C04.json "fixed"); I is transcribed from the repaired tree
+VARIANT_FINDING = {}
 
 
 # ------------------------------------------------------------------------------------------------
@@ -117,7 +118,7 @@ def pred_f2(case, rec, exp):
     if n is None:
         return False
     for o in _ops(case)[:n + 1]:
-        if o.get("t") == "set" and o.get("k", 0) >= 14 and o.get("s") == 2 and o.get("r", o.get("o")) != o.get("o"):
+        if o.get("t") == "set" and o.get("k", 0) >= 19 and o.get("s") == 2 and o.get("r", o.get("o")) != o.get("o"):
             return True
     return False
 
@@ -355,16 +356,19 @@ CFG = {
     "candidates": candidates,
     "rule": ("histories of 1..40 operations (define with any partial descriptor, set/get with any receiver, has, "
              "getOwnPropertyDescriptor, delete, ownKeys, preventExtensions, freeze, seal, isFrozen, isSealed, isExtensible, "
-             "get/setPrototypeOf) over 2..4 objects of 9 kinds (plain, null-prototype, function, class, unmapped arguments, "
-             "String, bound function, Go-created, arrow) with prototype chains, a per-case pool of 2..6 of 18 keys (array "
-             "indices incl. 2^32-2, numeric-looking strings '4294967295' '-0' '1e3' '01' '1.0', plain strings, symbols; index "
-             "keys also passed as numbers and as -0), each operation through one of four surfaces (syntax strict/sloppy, Object.*, "
+             "get/setPrototypeOf) over 2..4 objects of 13 kinds (plain, null-prototype, function, class, unmapped arguments, "
+             "String, bound function, Go-created, arrow, and the lazily templated built-ins Math, JSON, Reflect, "
+             "Function.prototype with their own keys abs/parse/apply) with prototype chains, a per-case pool of 2..6 of 23 keys "
+             "(array indices incl. 2^32-2, integer strings beyond the index range '4294967295' '4294967296' '10000000000', "
+             "numeric-looking strings '-0' '1e3' '01' '1.0', plain strings, symbols; integer keys also passed as numbers and as "
+             "-0); 30% of the cases use a key-order profile (index and big-integer keys, define/delete/ownKeys/number-keyed "
+             "Reflect.set through prototypes, almost no dumps so that goja's lazy key ordering state persists), each operation through one of four surfaces (syntax strict/sloppy, Object.*, "
              "Reflect.*, Go API); observed: every result, every accessor call (function, this, argument), and full "
              "descriptor dumps of all objects (Reflect.ownKeys order, isExtensible, prototype) at random points and at the end; "
              "non-trivial = at least one operation was refused (false / TypeError); distinct = by hash of the case"),
-    "theorem_names": ["define_eq_spec", "define_eq_spec_repaired", "define_wf_partial", "goja_set_only_receiver",
-                      "essential_invariants", "nonextensible_invariants", "frozen_is_final", "ownkeys_order",
-                      "ownkeys_unique", "ownkeys_same_set", "idxcount_exact", "set_only_receiver"],
+    "theorem_names": ["define_eq_spec", "define_wf", "define_step_eq_spec", "set_eq_spec", "essential_invariants",
+                      "nonextensible_invariants", "frozen_is_final", "ownkeys_order", "ownkeys_unique",
+                      "ownkeys_same_set", "idxcount_exact", "set_only_receiver", "goja_set_only_receiver"],
     "allowed_axioms": [],
     "trusted_base": [
         "Coq 8.16.1 kernel + vm_compute (no native_compute); theorems closed under the global context (no axioms)",
@@ -376,32 +380,27 @@ CFG = {
     ],
     "assumptions": [
         "getter/setter functions only log their call and return a constant; values are undefined, small integers and the objects of the case",
-        "own properties outside the 18-key pool (length, name, prototype, callee ...) are not modelled: isFrozen/isSealed are "
+        "own properties outside the 23-key pool (length, name, prototype, callee ...) are not modelled: isFrozen/isSealed are "
         "compared on such objects only when the answer is true",
         "descriptors mixing accessor and data fields (rejected by ToPropertyDescriptor before any internal method) are not generated",
         "the implementation is tied to the model only on the generated histories (correspondence), not by proof",
     ],
-    "predicates": {
-        # F1, F2, C04-N2 are repaired in /repo (known/C04.json "fixed"): their recognisers are retired, so that a
-        # regression is a VIOLATION (corpus/C04/known_F1|F2|N2.jsonl replay first on every run)
-        "C04.data_to_accessor_keeps_writable": pred_n1,
-        "C04.accessor_to_data_by_writable_keeps_getter": pred_n3,
-        "C04.string_object_numeric_key_beyond_length": pred_n4,
-    },
+    # no open finding: every disagreement with S is a VIOLATION (the recognisers pred_* above are retired; the former
+    # finding inputs are plain regression cases corpus/C04/reg_*.jsonl)
+    "predicates": {},
     "manifest": {
         "text": ("proof: (1) goja's _defineOwnProperty decision tree, transcribed from the current tree, equals "
-                 "ValidateAndApplyPropertyDescriptor for every existing property satisfying the valueProperty representation "
-                 "invariant and every partial descriptor (the tree before the F1/N2 repairs differed exactly in two characterised "
-                 "regions); that invariant is kept outside two exact regions (open findings N1, N3: refuted by witness) and "
-                 "everywhere once those two one-line repairs are switched on; (2) for every history of ordinary-object operations from any "
-                 "heap a non-configurable property is never deleted, keeps kind/enumerability/get/set and, if non-writable, its "
+                 "ValidateAndApplyPropertyDescriptor for every existing property and every partial descriptor and keeps the "
+                 "valueProperty representation invariant unconditionally; (2) for every history of ordinary-object operations from "
+                 "any heap a non-configurable property is never deleted, keeps kind/enumerability/get/set and, if non-writable, its "
                  "value; a non-extensible object keeps its prototype and gains no key; a frozen object never changes; (3) for "
                  "every history of add/delete/enumerate goja's lazily sorted propNames equals OrdinaryOwnPropertyKeys, keys unique, "
-                 "idxPropCount exact; (4) OrdinarySet and goja's setOwn/setForeign walk touch only the receiver, for all heaps and key "
-                 "kinds (before the F2 repair: only for non-symbol keys). 21 theorems, no axioms. Tied to /repo on every run by 1500 (quick) / 100000 (thorough) generated histories over 9 object kinds, "
-                 "18 keys of 4 kinds and 4 API surfaces, compared step by step (results, accessor events, descriptor dumps) with "
-                 "the models evaluated by vm_compute; every disagreement with S is classified against the transcription of goja with "
-                 "single repairs toggled, and every one the transcription does not explain is examined individually."),
+                 "idxPropCount exact; (4) goja's [[Set]] (setOwn*/setForeign* for string, index and symbol keys, incl. the "
+                 "idxPropCount shortcut) equals OrdinarySet on related heaps for every target, receiver and prototype chain. 18 "
+                 "theorems, no axioms. Tied to /repo on every run by 1500 (quick) / 100000 (thorough) generated histories over 13 "
+                 "object kinds (incl. the lazily templated built-ins Math, JSON, Reflect, Function.prototype), 23 keys of 5 kinds "
+                 "and 4 API surfaces, compared step by step (results, accessor events, descriptor dumps) with S and with the "
+                 "transcription I evaluated by vm_compute; no finding is open, so every disagreement is a VIOLATION."),
         "note": ("trusted: Coq kernel + vm_compute; the hand transcriptions coq/C04/Model.v of ECMA-262 10.1 (S) and of "
                  "object.go/value.go/builtin_object.go (I); the Go harness and its surface conventions; exotic kinds (function, "
                  "class, arguments, String, bound) are compared with the ordinary model on pool keys only; arrays, typed arrays, "
